@@ -112,6 +112,8 @@ def check(ctx, res) -> None:
 
     deser_sites, writer_funcs = [], []
     for f in idx.functions.values():
+        if not any(w in f.unit.source for w in ("pickle", "json", "marshal")):
+            continue  # (helpers are read in place from the same module only)
         for c in calls_in(common.inlined(idx, f)):
             d = dotted(c.func)
             if not d:
@@ -178,6 +180,8 @@ def check(ctx, res) -> None:
     # ---- R18.2 consumers of read_data tolerate None
     n_cons = 0
     for f in sorted(idx.functions.values(), key=lambda f: f.qualname):
+        if "read_data" not in f.unit.source:
+            continue
         for c in calls_in(common.inlined(idx, f)):
             if not (isinstance(c.func, ast.Attribute) and c.func.attr == "read_data"):
                 continue
@@ -243,7 +247,7 @@ def check(ctx, res) -> None:
                 writes.append((w, c))
     reads = []
     for f in idx.functions.values():
-        if f.unit.modname in IPC_MODULES:
+        if f.unit.modname in IPC_MODULES or "open(" not in f.unit.source:
             continue
         for c in calls_in(common.inlined(idx, f)):
             m = _open_mode(c, common.inlined(idx, f))
